@@ -12,9 +12,13 @@ import (
 
 	"github.com/alibaba/RedisShake/pkg/libs/log"
 	conf "github.com/alibaba/RedisShake/redis-shake/configure"
+	"github.com/alibaba/RedisShake/redis-shake/dbSync"
 	"github.com/alibaba/RedisShake/redis-shake/dbSync/slot"
 	"github.com/alibaba/RedisShake/redis-shake/dbSync/slotsupervisor"
 
+	"golang.org/x/sync/semaphore"
+
+	"verif/harness/lib/fakesource"
 	"verif/harness/lib/miniredis"
 	"verif/harness/lib/prng"
 	"verif/harness/lib/wk"
@@ -329,6 +333,45 @@ func runC20(r resIface, c *c20case) {
 	}
 }
 
+// runC20e2e: the use at sync start. DbSyncer.Sync() with source.type=cluster must re-discover the shard's master and
+// replicate from it: the configured source is a replica (or dead), a known replica has been promoted.
+func runC20e2e(r resIface, idx int, rng *prng.R) {
+	cfg := &e2eCfg{TargetDB: -1, SenderCount: 8, SenderSize: 65535, Parallel: 2, Metric: true}
+	cfg.apply()
+	conf.Options.SourceType = conf.RedisTypeCluster
+	master, err := fakesource.New(fakesource.Script{RunID: e2eRunID, StartOffset: 10, RDB: minimalRDB(rng, nil)}, e2eSrcPw)
+	if err != nil {
+		r.Inconcl("fakesource: " + err.Error())
+		return
+	}
+	old := &fakeNode{Script: []string{[]string{bSlave, bDrop, bErr, bRefuse}[idx%4]}}
+	other := &fakeNode{Script: []string{bSlave}}
+	old.start()
+	other.start()
+	srv := miniredis.NewServer()
+	srv.Password = e2eTgtPw
+	tcp, _ := srv.ListenTCP()
+	slaves := []string{other.addr, master.Addr}
+	if idx%2 == 1 {
+		slaves = []string{master.Addr, other.addr}
+	}
+	e2eIDs.Lock()
+	e2eIDs.n++
+	id := e2eIDs.n
+	e2eIDs.Unlock()
+	node := &slot.SyncNode{Id: id, Source: old.addr, SourcePassword: e2eSrcPw, Target: []string{tcp.Addr}, TargetPassword: e2eTgtPw, SlotLeftBoundary: -1, SlotRightBoundary: -1, Slaves: slaves}
+	ds := dbSync.NewDbSyncer(node, 9320, semaphore.NewWeighted(4))
+	go ds.Sync()
+	master.Feed(streamBytes([]srcCmd{{Name: "SELECT", Args: [][]byte{[]byte("0")}}, {Name: "SET", Args: [][]byte{[]byte("promoted"), []byte("yes")}}}))
+	ok := waitUntil(10*time.Second, func() bool { return srv.Raw(0, "promoted") != nil })
+	_, ps := master.Snapshot()
+	r.Case(fmt.Sprintf("e2e-topology|old=%s|order%d", old.Script[0], idx%2))
+	r.Count("e2e_topology_runs", 1)
+	if len(ps) == 0 || !ok {
+		r.Violation("C20|outcome=sync-did-not-follow-the-master|scenario=e2e", fmt.Sprintf("configured source behaves as %q, a known replica reports master: the syncer sent %d PSYNC to the master and the master's write arrived=%v", old.Script[0], len(ps), ok), map[string]interface{}{"old_source": old.Script[0], "slaves_order": idx % 2})
+	}
+}
+
 func c20casesChild(raw json.RawMessage, scratch string) {
 	a := wk.ParseBatchArg(raw, nil)
 	log.SetLevel(log.LEVEL_NONE)
@@ -338,6 +381,14 @@ func c20casesChild(raw json.RawMessage, scratch string) {
 	var wg sync.WaitGroup
 	var mu sync.Mutex
 	sampled := false
+	if a.Start >= 9000000 {
+		for i := a.Start; i < a.End; i++ {
+			wk.ChildCase(i, map[string]interface{}{"index": i, "scenario": "e2e-topology"})
+			runC20e2e(r, i, base.At(uint64(i)))
+		}
+		wk.ChildDone(r)
+		return
+	}
 	for i := a.Start; i < a.End; i++ {
 		c := genC20(base.At(uint64(i)), i)
 		wg.Add(1)
@@ -358,7 +409,7 @@ func c20casesChild(raw json.RawMessage, scratch string) {
 
 func c20(c *wk.Ctx) {
 	r := c.R
-	r.Rule = "fake shard nodes on loopback ports with a behaviour script per probe round (master, slave, connection refused, accept-and-drop, -ERR, -LOADING, INFO without role, non-RESP garbage, integer reply); 1-5 nodes in any order, one or two masters appearing from round 1..7 or never; the real slotsupervisor.New(node).GetSlotState() is called; result checked at the first round in which a node reports master: Source is one of that round's masters, Slaves = every other known node exactly once, error iff no master within the retry budget, at most 7 probes per node. distinct = (nodes, masters, first master round, whether the configured source is the master)"
+	r.Rule = "fake shard nodes on loopback ports with a behaviour script per probe round (master, slave, connection refused, accept-and-drop, -ERR, -LOADING, INFO without role, non-RESP garbage, integer reply); 1-5 nodes in any order, one or two masters appearing from round 1..7 or never; the real slotsupervisor.New(node).GetSlotState() is called; plus end-to-end runs of DbSyncer.Sync() with source.type=cluster where the configured source is a replica/dead node and a known replica was promoted (the PSYNC must go to the master); result checked at the first round in which a node reports master: Source is one of that round's masters, Slaves = every other known node exactly once, error iff no master within the retry budget, at most 7 probes per node. distinct = (nodes, masters, first master round, whether the configured source is the master)"
 	onDeath := func(d wk.Death) {
 		if d.Result.TimedOut {
 			r.Inconcl("C20 child watchdog")
@@ -371,9 +422,14 @@ func c20(c *wk.Ctx) {
 	}
 	n := c.N(160, 1600)
 	parts := c.N(4, 16)
-	wk.Parallel(parts, 4, func(p int) {
+	wk.Parallel(parts+1, 5, func(p int) {
+		if p == parts {
+			wk.RunBatch(c, "c20cases", 9000000, 9000000+c.N(4, 16), nil, 20*time.Minute, onDeath)
+			return
+		}
 		wk.RunBatch(c, "c20cases", n*p/parts, n*(p+1)/parts, nil, 20*time.Minute, onDeath)
 	})
+	r.Floor("e2e_topology_runs", 4)
 	r.Floor("cases", 100)
 	r.Floor("no_master_cases", 8)
 	r.Assume("a probe round = one connection per node (the supervisor probes every known node once per round); silent nodes (accept, never answer) are not generated: the connection has no read timeout and the statement's fault list does not include them")
